@@ -105,6 +105,12 @@ CHECKS = {
          'for 3 libraries x 5 small designs x branchforks x escaped names: all subsets and (<= 4 entries) all orders of IOPATH entries, every single deviation of edge qualifier and value form per entry, '
          'duplicates, three CELL groupings incl. repeated blocks, interconnect entries in one/several top-level blocks incl. zero-valued; parsed arrays compared element by element with the array built from the AST',
          'trusted: SDF renderer and expected-array builder in checks/c14.py; library pin tables (C19)', 'DESIGN.md section 4 C14'),
+
+ 'C18': ('exploration', 'bounded enumeration of scan designs x STIL ASTs vs. expected pattern arrays',
+         '6 scan designs (chain lengths 1-3, two chains, shuffled node order, latch, library-style kinds) x every placement of inversion markers x every load string and every unload string '
+         'for one pattern, N/X at each position, two-pattern sets, all permutations of the signal groups, three cell-name styles, launch-on-capture pattern sets with and without clock pulses; '
+         'tests(), responses() and tests_loc() compared element by element with arrays built from the generator AST and a reference next-state evaluation',
+         'trusted: STIL renderer and expected-array builder in checks/c18.py; reference graph evaluator', 'DESIGN.md section 4 C18'),
 }
 
 NOT_YET = 'check under construction in this session (see DESIGN.md build order); will be claimed once its exhaustive check exists'
